@@ -74,7 +74,18 @@ func edifactHandleEOD(context *EncoderContext, buffer []byte) error {
 			available = context.GetSymbolInfo().GetDataCapacity() - context.GetCodewordCount()
 		}
 		if remaining <= available && available <= 2 {
-			return nil //No unlatch
+			// the rest is written in ASCII without unlatch -- unless a character
+			// needs two ASCII codewords (upper shift), then it is no longer at the
+			// end of the symbol and the unlatch is required
+			extended := false
+			for i := 0; i < remaining; i++ {
+				if HighLevelEncoder_isExtendedASCII(context.GetMessage()[context.pos+i]) {
+					extended = true
+				}
+			}
+			if !extended {
+				return nil //No unlatch
+			}
 		}
 	}
 
